@@ -158,6 +158,14 @@ def check(case):
     if case["input"].get("threads") is not None and len(t.spec["data"]) < 3000:
         sp = dict(t.spec, source="bytes")
         common.check_threads(res, "C06", [dict(sp, id="t0"), dict(sp, id="t1"), dict(sp, id="t2")], case["input"]["threads"], label=arg)
+    # types declared during the history (sim/dyntypes.py): every 80-th run or so, derived from the case so that a replay needs nothing else
+    if int(__import__("hashlib").sha256(repr(sorted((t_["id"], t_.get("data", "")[:48]) for t_ in case["tasks"])).encode()).hexdigest()[:6], 16) % 80 == 0:
+        from .. import dyntypes
+        seed_ = int(__import__("hashlib").sha256(repr([t_.get("data", "")[:48] for t_ in case["tasks"]]).encode()).hexdigest()[6:12], 16)
+        res.count("types-declared-during-the-history")
+        for msg_ in dyntypes.run("C06", seed_):
+            res.v("C06.D", "C06.D:declared-later", "a type declared during the history (template seed %d): %s" % (seed_, msg_))
+            break
     if not (o.ok and not o.unspecified):
         res.nontrivial(root, t.spec.get("cc"), t.spec.get("enc"), t.spec["data"])
     if o.unspecified:
